@@ -225,6 +225,23 @@ func genC16(e *emitter, tier string) {
 				d[0] = 1000
 				e.emit(batchCase("float:softmax-first-element-far-above-other-rows", func() (*gonnx.Model, error) { return loadModel(gsm) }, gsm, []BatchIn{{"x", []int{N, 4}, 0}}, map[string][]float64{"x": d}, false))
 			}
+			// exact zeros in a sample lined up with non-finite weights (0 x Inf): whatever the kernels make of it,
+			// a sample alone gets what it gets inside a batch
+			if r == 0 {
+				inf := math.Inf(1)
+				gz := &GraphJ{Inputs: []VInfoJ{{Name: "x", Dt: "f32", Dims: []any{"N", 3}}},
+					Inits: []InitJ{{Name: "wt", T: fT("f32", []int{2, 3}, []float64{inf, 1, 2, 0.5, math.NaN(), -1})}, {Name: "w", T: fT("f32", []int{3, 2}, []float64{-inf, 1, 2, 3, 0.25, inf})},
+						{Name: "b", T: fT("f32", []int{2}, []float64{0.5, -0.5})}},
+					Nodes: []NodeJ{{Op: "Gemm", Attrs: []Attr{{Name: "transB", Type: "i", I: 1}}, Ins: []string{"x", "wt", "b"}, Outs: []string{"g"}},
+						{Op: "MatMul", Ins: []string{"x", "w"}, Outs: []string{"m"}}, {Op: "Relu", Ins: []string{"x"}, Outs: []string{"rx"}},
+						{Op: "Gemm", Ins: []string{"rx", "w"}, Outs: []string{"g2"}}},
+					Outputs: []string{"g", "m", "g2"}}
+				d := make([]float64, N*3)
+				for i := range d {
+					d[i] = float64((i*2+i/3)%3) - 1 // -1, 0, 1 patterns: exact zeros at different positions per sample
+				}
+				e.emit(batchCase("float:zero-times-nonfinite-weight", func() (*gonnx.Model, error) { return loadModel(gz) }, gz, []BatchIn{{"x", []int{N, 3}, 0}}, map[string][]float64{"x": d}, false))
+			}
 			// generated per-sample graphs in the exact regime (bit for bit)
 			for _, pg := range perSampleGraphs(e) {
 				g := pg.g
